@@ -699,3 +699,73 @@ func OptionVariants(c *Case) []Case {
 	add("nointroduce", func(v *Case) { v.Opt.NoIntroduce = true })
 	return out
 }
+
+// ScopeShapes lists the shapes of GenScopeShape (used by C12 only; GenFix/FixShapes are unchanged).
+var ScopeShapes = []string{"shift"}
+
+// GenScopeShape enumerates universes in which a patch changes the POSITION (depth, dev-only
+// reachability) of a vulnerable transitive package, so that position-dependent options (depth
+// limit, dev dependencies off) filter a vulnerability differently before and after the patch.
+//
+//	shift  manifest {d1: R} or {d1: R, d2: 1.0.0}; d1 publishes {a,b}, (a,b) in {(1.0.0,1.0.1),(1.0.0,1.1.0),(1.0.0,2.0.0)};
+//	       each of d1@a, d1@b independently depends on nothing | t2@1.0.0 | t1@1.0.0 (t1@1.0.0 -> t2@1.0.0);
+//	       d2 absent | d2@1.0.0 -> t2@1.0.0 | d2@1.0.0 -> t1@1.0.0  (OptionVariants marks d1 or d2 as dev);
+//	       t2 publishes {1.0.0} with V2 = t2 [0,nofix), or {1.0.0,1.0.1} with V2 = t2 [0,1.0.1); V1 = d1 [0,b);
+//	       R = a (thorough: also ^a / ${p}=a); upgrade config {major} | {patch} (thorough: also {minor}, {major,t2:none})
+//	       full product, simplest first.
+func (b Bounds) GenScopeShape(eco, shape string, emit func(*Case)) {
+	if shape != "shift" {
+		return
+	}
+	depOf := func(kind int) []Dep {
+		switch kind {
+		case 1:
+			return []Dep{{Name: "t2", Req: "1.0.0"}}
+		case 2:
+			return []Dep{{Name: "t1", Req: "1.0.0"}}
+		}
+		return nil
+	}
+	cfgs := [][]string{{"major"}, {"patch"}}
+	if b.Thorough {
+		cfgs = append(cfgs, []string{"minor"}, []string{"major", "t2:none"})
+	}
+	for _, ab := range [][2]string{{"1.0.0", "1.0.1"}, {"1.0.0", "1.1.0"}, {"1.0.0", "2.0.0"}} {
+		reqs := []Req{{Name: "d1", Req: ab[0]}}
+		if b.Thorough {
+			if eco == NPM {
+				reqs = append(reqs, Req{Name: "d1", Req: "^" + ab[0]})
+			} else {
+				reqs = append(reqs, Req{Name: "d1", Req: ab[0], Prop: "lib.version"})
+			}
+		}
+		for d2kind := 0; d2kind <= 2; d2kind++ {
+			for ka := 0; ka <= 2; ka++ {
+				for kb := 0; kb <= 2; kb++ {
+					for t2fix := 0; t2fix <= 1; t2fix++ {
+						for _, r1 := range reqs {
+							for _, cfg := range cfgs {
+								pkgs := []Pkg{{Name: "d1", Vers: []Ver{{V: ab[0], Deps: depOf(ka)}, {V: ab[1], Deps: depOf(kb)}}}}
+								man := []Req{r1}
+								if d2kind > 0 {
+									pkgs = append(pkgs, Pkg{Name: "d2", Vers: []Ver{{V: "1.0.0", Deps: depOf(d2kind)}}})
+									man = append(man, Req{Name: "d2", Req: "1.0.0"})
+								}
+								pkgs = append(pkgs, Pkg{Name: "t1", Vers: []Ver{{V: "1.0.0", Deps: []Dep{{Name: "t2", Req: "1.0.0"}}}}})
+								v2 := Vuln{ID: "V2", Pkg: "t2", Introduced: "0"}
+								t2 := []string{"1.0.0"}
+								if t2fix == 1 {
+									t2 = append(t2, "1.0.1")
+									v2.Fixed = "1.0.1"
+								}
+								pkgs = append(pkgs, Pkg{Name: "t2", Vers: plainVers(t2)})
+								emit(&Case{Eco: eco, Shape: "shift", Pkgs: pkgs, Manifest: man,
+									Vulns: []Vuln{{ID: "V1", Pkg: "d1", Introduced: "0", Fixed: ab[1]}, v2}, Cfg: cfg})
+							}
+						}
+					}
+				}
+			}
+		}
+	}
+}
